@@ -3,15 +3,31 @@
 P  Lean theorems over ℝ (lean/MjProof/Props/C36.lean) about the executable model lean/MjProof/Model/Orient.lean of
    ResolveOrientation (user_objects.cc) and of the frame accumulators (user_util.cc), whose straight-line kernels are the
    definitions generated from user_util.cc by translate/c35_userutil.py on every run: every orientation spelling yields the
-   quaternion of the rotation it denotes; nesting frames is associative.
+   quaternion of the rotation it denotes; nesting frames is associative.  lean/MjProof/Model/Attach.lean models the pose
+   semantics of mjs_attach (user_api.cc: dispatch on attachment point frame / body / site x attached body / frame / whole
+   spec; the frame attachToSite / attachFrameToSite create from the site's pos / quat / alt; the identity frame wrapped
+   around the world of an attached spec; every element keeping the degree / eulerseq of the spec it was written in) on top
+   of mjCFrame::Compile / mjCBody::Compile: the attached body compiles to exactly the pose of the written-out description
+   (all number classes, hence bit for bit), the world frame of an attached model is neutral (reals), a body attached to a
+   site is mounted with the site's rotation.
 T  bitwise differential of the model (Lean on Float) against mjs_resolveOrientation of the tree (all five spellings, every
-   Euler sequence, degree / radian, error cases) and against bodies compiled inside (nested) frames; translation validation
-   of the generated kernels the model uses.
+   Euler sequence, degree / radian, error cases), against bodies compiled inside (nested) frames, and (`att` lines) against
+   the real mjs_attach + mj_compile for every attachment point (frame, body, site, site of a previously attached spec) x
+   attached element (body, frame, model) x spelling of every pose on the way x degree / eulerseq of host, child and site
+   spec chosen independently x nesting; translation validation of the generated kernels the model uses.
 S  oracle on the implementation alone: (a) the resolved quaternion denotes the rotation computed independently in Python;
-   (b) model pairs compiled through the mjSpec C API: orientation spellings vs explicit quaternions, degrees vs radians,
-   bodies / geoms / sites wrapped in frames vs inline, fusestatic and discardvisual on vs off, values through (nested)
-   default classes vs explicit, mjs_attach of a child spec vs inline bodies, runtime edit + mj_setConst vs recompiling the
-   edited spec — trajectories of the kept bodies / sites over 200 steps (1e-9 relative), static arrays bitwise where exact.
+   (a') the pose of an attached body is the composition, computed in Python, of the rotations the spellings denote in the
+   spec each was WRITTEN in; (b) model pairs compiled through the mjSpec C API: orientation spellings vs explicit
+   quaternions, degrees vs radians, bodies / geoms / sites wrapped in frames vs inline, fusestatic and discardvisual on vs
+   off, values through (nested) default classes vs explicit, runtime edit + mj_setConst vs recompiling the edited spec,
+   and mjs_attach vs inline: every entry point x every spelling of the attachment point (each pair at least once per run) x
+   child spec with the same / another compiler (degrees vs radians, eulerseq) x deep copy on / off x prefix / suffix x the
+   same child attached twice x a grandchild attached to a site of the child first, the payload carrying spelled bodies,
+   inertial frames (ialt), geoms, sites, cameras, inner frames, hinge / ball joints with ref / springref / range in the
+   child's angle unit, actuators and sensors referring to payload elements by name — compared with the written-out model
+   with the same spellings (all mjModel arrays bitwise) and with the written-out model in radians with quaternions computed
+   in Python (poses 1e-12, compiled values 1e-6, trajectories 1e-9) — trajectories of the kept bodies / sites over 200
+   steps (1e-9 relative), static arrays bitwise where exact.
 """
 import json
 import math
@@ -25,9 +41,9 @@ from gen.enums import E
 from gen.models import ModelGen, unit_quat
 
 META = {
-    "technique": "hand model of ResolveOrientation / mjuu_normvec / mjuu_mulquat / mjuu_frame2quat / mjuu_z2quat / frame accumulation over a law-free number class on top of c2lean-generated user_util.cc kernels + Lean 4 proofs over the reals + bitwise differential against mjs_resolveOrientation and compiled frames + equivalence oracle on compiled model pairs (trajectories, static arrays)",
-    "text": "Proved over the reals for the model instantiated with pi = Real.pi: an explicit quaternion is passed through; with `degree` an angle x is used as x/180*pi and a degree spelling equals the radian spelling with scaled angles (axis-angle and Euler); an axis-angle spelling with a normalisable axis yields (cos phi/2, sin phi/2 * axis/|axis|), which for a unit axis is a unit quaternion whose rotation matrix fixes the axis and has trace 1 + 2 cos phi; for EVERY one of the 6^3 Euler sequences over x y z X Y Z the result is a unit quaternion whose rotation matrix is the product of the three elementary rotations, post-multiplied for lower-case (moving axes) and pre-multiplied for upper-case (fixed axes) letters, any other letter being rejected (xyz = Rx Ry Rz, XYZ = Rz Ry Rx as corollaries); the xyaxes spelling yields mjuu_frame2quat of the Gram-Schmidt frame (x^, y^, x^ x y^), which is right-handed orthonormal, and mjuu_frame2quat applied to the frame of any unit quaternion p returns +p or -p in each of its four branches; the zaxis spelling on a unit direction yields a unit quaternion with zero z-component (minimal rotation) whose matrix maps (0,0,1) to that direction, with the poles (0,0,+-1) giving the identity / the half turn about x; accumulating frames is associative and has the null frame as identity for unit orientations, and a child placed in a frame gets orientation q_frame*q_child and position p_frame + R(q_frame) p_child.",
-    "note": "Partial: xyaxes_denotes_frame_partial assumes the Gram-Schmidt frame is the frame of some unit quaternion (surjectivity of the double cover is not proved); normalisation is exact only outside the band | |v| - 1 | <= 1e-14 in which the C code deliberately leaves vectors unchanged (hypothesis `Normalisable`). NOT modelled, oracle only: default classes, frames attached to every element kind, mjs_attach, fusestatic, discardvisual, mj_setConst (pairs of compiled models compared by trajectories of kept bodies and sites over 200 steps at 1e-9 relative on contact-free generated models, and bitwise on all mjModel arrays where the rewriting is exact: defaults, attach, identity-child frames, setconst). src/xml is stubbed, so XML-only spellings are out of reach: nested default classes written in XML (childclass inheritance through the parser), <replicate>, <include>; defaults are exercised through mjs_addDefault (parent + nested child class), frames through mjs_addFrame / mjs_setFrame, attach through mjs_attach. pi is a parameter of the model (driver: the mjPI literal; theorems: Real.pi). Reals vs IEEE doubles: rounding is outside the proofs.",
+    "technique": "hand model of ResolveOrientation / mjuu_normvec / mjuu_mulquat / mjuu_frame2quat / mjuu_z2quat / frame accumulation / mjCFrame::Compile / the pose steps of mjCBody::Compile / the pose semantics of mjs_attach over a law-free number class on top of c2lean-generated user_util.cc kernels + Lean 4 proofs over the reals and (attach = inline) over every number class + bitwise differential against mjs_resolveOrientation, compiled frames and mjs_attach + mj_compile + equivalence oracle on compiled model pairs (trajectories, static arrays)",
+    "text": "Proved over the reals for the model instantiated with pi = Real.pi: an explicit quaternion is passed through; with `degree` an angle x is used as x/180*pi and a degree spelling equals the radian spelling with scaled angles (axis-angle and Euler); an axis-angle spelling with a normalisable axis yields (cos phi/2, sin phi/2 * axis/|axis|), which for a unit axis is a unit quaternion whose rotation matrix fixes the axis and has trace 1 + 2 cos phi; for EVERY one of the 6^3 Euler sequences over x y z X Y Z the result is a unit quaternion whose rotation matrix is the product of the three elementary rotations, post-multiplied for lower-case (moving axes) and pre-multiplied for upper-case (fixed axes) letters, any other letter being rejected (xyz = Rx Ry Rz, XYZ = Rz Ry Rx as corollaries); the xyaxes spelling yields mjuu_frame2quat of the Gram-Schmidt frame (x^, y^, x^ x y^), which is right-handed orthonormal, and mjuu_frame2quat applied to the frame of any unit quaternion p returns +p or -p in each of its four branches; the zaxis spelling on a unit direction yields a unit quaternion with zero z-component (minimal rotation) whose matrix maps (0,0,1) to that direction, with the poles (0,0,+-1) giving the identity / the half turn about x; accumulating frames is associative and has the null frame as identity for unit orientations, and a child placed in a frame gets orientation q_frame*q_child and position p_frame + R(q_frame) p_child. mjs_attach (model of its pose semantics, tied bitwise to the real function on every run): for EVERY number class (so bit for bit on doubles) attaching a body or a frame of a child spec to a frame, a body or a site compiles the observed body to exactly the pose of the written-out description (attachment point spelled as a frame with the same pos / quat / alt, attached frames and body inside it, every element resolved with the degree / eulerseq of the spec it was written in), provided a site is resolved with the settings of the spec it was written in and is resolvable (otherwise both descriptions fail to compile); over the reals the identity frame wrapped around the world of an attached spec is neutral when every spelling on the way denotes a unit quaternion, so an attached model equals its world's children written at the attachment point; a body attached to a site whose spelling denotes q_s is compiled at p_site + R(q_s) p_body with orientation q_s*q_body.",
+    "note": "Partial: xyaxes_denotes_frame_partial assumes the Gram-Schmidt frame is the frame of some unit quaternion (surjectivity of the double cover is not proved); normalisation is exact only outside the band | |v| - 1 | <= 1e-14 in which the C code deliberately leaves vectors unchanged (hypothesis `Normalisable`). FINDING on the tree (known_findings c36:attach:site-of-attached-spec:units): attachToSite / attachFrameToSite resolve the site's spelling with the compiler of mjs_getSpec(site), which after an earlier attachment is the HOST, not the spec the site was written in — the hypothesis `ownSettings` of attach_eq_inline fails and the subtree is mounted with the wrong rotation (modelled as coded: Point.site carries the owner's settings; the differential agrees, the Python oracle reports it). Of mjs_attach only the pose of attached bodies is modelled; the copying of the other element kinds, of defaults, keyframes and by-name references, name prefixes and deep / shallow copies are oracle only. NOT modelled, oracle only: default classes, frames attached to every element kind, fusestatic, discardvisual, mj_setConst (pairs of compiled models compared by trajectories of kept bodies and sites over 200 steps at 1e-9 relative on contact-free generated models, and bitwise on all mjModel arrays where the rewriting is exact: defaults, attach, identity-child frames, setconst). src/xml is stubbed, so XML-only spellings are out of reach: nested default classes written in XML (childclass inheritance through the parser), <replicate>, <include>; defaults are exercised through mjs_addDefault (parent + nested child class), frames through mjs_addFrame / mjs_setFrame, attach through mjs_attach. pi is a parameter of the model (driver: the mjPI literal; theorems: Real.pi). Reals vs IEEE doubles: rounding is outside the proofs.",
 }
 
 P = "MjProof.C36."
@@ -36,8 +52,10 @@ THEOREMS = [P + t for t in (
     "euler_denotes_rotation_product", "euler_letters", "euler_xyz_XYZ",
     "xyaxes_gram_schmidt", "xyaxes_denotes_frame_partial", "zaxis_minimal_rotation", "zaxis_poles",
     "frame_composition_assoc", "frame_composition_identity", "frameaccumChild_pose",
+    "attach_eq_inline", "attach_site_unresolvable", "attach_model_eq_inline", "attach_site_pose",
 )] + ["MjProof.Orient.frame2quat_matF", "MjProof.Orient.matF_hamilton", "MjProof.Orient.matF_orthogonal",
-      "MjProof.Orient.mulquat_unit", "MjProof.Orient.quat2mat_eq"]
+      "MjProof.Orient.mulquat_unit", "MjProof.Orient.quat2mat_eq",
+      "MjProof.Attach.compileChain_append", "MjProof.Attach.compileFrame_siteFrame", "MjProof.Attach.worldFrame_neutral"]
 
 KERNELS = ["mjuu_dot3", "mjuu_quat2mat", "mjuu_mulvecmat", "mjuu_crossvec", "mjuu_frameinvert"]
 LETTERS = (120, 121, 122, 88, 89, 90)
@@ -409,12 +427,15 @@ def gen_att(ctx):
 def att_oracle(ctx, lines, outs, meta):
     """the compiled pose of the attached body is the composition host point o attached frames o body, every orientation
     being the rotation its spelling denotes under the compiler settings of the spec it was WRITTEN in"""
-    nfail, maxdev, nok, nerr = 0, 0.0, 0, 0
+    nfail, maxdev, nok, nerr, nknown = 0, 0.0, 0, 0, 0
+
+    reported = {}
 
     def fail(key, what, line, out, m):
         nonlocal nfail
         nfail += 1
-        if nfail <= 6:
+        reported[key] = reported.get(key, 0) + 1
+        if reported[key] <= 2 and len(reported) <= 40:      # at most two replays per failure key
             ctx.oracle_failure("c36:" + key, what, {"line": line, "impl_output": out, "attachment_point": PK[m[1]], "attached": CK[m[2]],
                                                    "outer_frame": m[3], "inner_frame": m[4], "host_degree_eulerseq": [m[5][0], "".join(map(chr, m[5][1]))],
                                                    "child_degree_eulerseq": [m[6][0], "".join(map(chr, m[6][1]))],
@@ -462,9 +483,10 @@ def att_oracle(ctx, lines, outs, meta):
         for c in chain[1:]:
             exp = compose(exp, c)
         d = max(max(abs(a-b) for a, b in zip(v[:3], exp[0])), mdev(qmat(v[3:]), qmat(exp[1])))
-        maxdev = max(maxdev, d)
         nok += 1
-        if not d <= 1e-10:
+        if d <= 1e-10:
+            maxdev = max(maxdev, d)
+        else:
             sp = SPELL[recs[1]["type"]] if pk != 1 else "-"
             if pk == 3 and ((recs[1]["type"] in (1, 4) and mid[0] != host[0]) or (recs[1]["type"] == 4 and mid[1] != host[1])):
                 # attachToSite / attachFrameToSite resolve the site's spelling with the compiler of the spec that owns
@@ -473,10 +495,12 @@ def att_oracle(ctx, lines, outs, meta):
                      "with degree=%d eulerseq=%s is used as attachment point: its %s spelling is resolved with the HOST's settings, "
                      "the attached body is %g away from the site" % (mid[0], "".join(map(chr, mid[1])), host[0],
                                                                      "".join(map(chr, host[1])), sp, d), line, out, m)
+                nknown += 1
                 continue
             fail(name + ":pose:" + sp, "pose of the attached body deviates by %g from the written-out composition "
                  "(attachment point spelled as %s, host degree=%d, child degree=%d)" % (d, sp, host[0], child[0]), line, out, m)
-    ctx.extra["att_oracle"] = {"failures": nfail, "poses_compared": nok, "degenerate_cases": nerr, "max_pose_deviation": float("%.3g" % maxdev)}
+    ctx.extra["att_oracle"] = {"failures": nfail, "of_which_site_of_attached_spec_units": nknown, "poses_compared": nok,
+                               "degenerate_cases": nerr, "max_pose_deviation_of_passing_cases": float("%.3g" % maxdev), "tolerance": 1e-10}
 
 
 # ------------------------------------------------------------------------------------------ model pairs
@@ -680,7 +704,7 @@ def gen_pairs(ctx):
     # the attachment point, each at least once per run; the rest of the scenario is random (gen_attach_case)
     combos = [(pk, ck) for pk in (0, 2) for ck in (0, 1, 2)] + [(1, 1), (1, 2)]
     hist = {}
-    for i in range(400 if thorough else 40):
+    for i in range(480 if thorough else 64):
         pk, ck = combos[i % 8]
         tag, A, Bx, Bq, nv = gen_attach_case(rng, {"pk": pk, "ck": ck, "ptype": (i // 8) % 5})
         st = "qvel " + fmtv([rng.uniform(-1, 1) for _ in range(nv)])
@@ -937,9 +961,10 @@ def gen_attach_case(rng, force=None):
     pk = force.get("pk", rng.randint(0, 2))                      # 0 frame, 1 body, 2 site
     ck = force.get("ck", rng.randint(1, 2) if pk == 1 else rng.randint(0, 2))
     ptype = force.get("ptype", rng.randint(0, 4))                # spelling of the attachment point
-    same = rng.random() < 0.45                                   # child written with the host's compiler settings
+    same = rng.random() < 0.35                                   # child written with the host's compiler settings
     host = (rng.randint(0, 1), [rng.choice(LETTERS) for _ in range(3)])
-    child = host if same else (rng.randint(0, 1), [rng.choice(LETTERS) for _ in range(3)])
+    # otherwise mostly the other angle unit (the documented use: host in radians, child in degrees or vice versa)
+    child = host if same else (1 - host[0] if rng.random() < 0.75 else host[0], [rng.choice(LETTERS) for _ in range(3)])
     deepcopy = rng.randint(0, 1)
     pre, suf = rng.choice((("a_", ""), ("", "_x"), ("p", "s"), ("", "")))
     outer = rng.random() < 0.4 and pk != 1
@@ -952,7 +977,7 @@ def gen_attach_case(rng, force=None):
     refs = pick_refs(rng, tops, "c")
     prec = rand_rec(rng, host[0], ty=ptype)
     orec = rand_rec(rng, host[0])
-    grec = rand_rec(rng, child[0])
+    grec = rand_rec(rng, child[0], ty=rng.choice((1, 4, 1, 4, 0, 2, 3)))      # the attached frame: mostly unit-dependent
     p2rec = rand_rec(rng, host[0])
     gcomp = child if rng.random() < 0.5 else (rng.randint(0, 1), [rng.choice(LETTERS) for _ in range(3)])
     gtops = payload(rng, gcomp[0], "g", single=True) if grand else []
@@ -1092,6 +1117,76 @@ def gen_attach_case(rng, force=None):
     return tag, a_lines, exact, inline("quat"), nv
 
 
+def site_of_attached_spec_repro():
+    """minimal input of the finding c36:attach:site-of-attached-spec:units (feed to the c36_equiv harness): a spec with
+    compiler.degree = 1 holding a site spelled euler = "90 0 0" is attached to a host with degree = 0, then a body is attached
+    to that site; description B is the written-out model.  Expected `dev0` ~ 1e-16, observed 0.309."""
+    return """apair 10 0
+compiler degree 0
+body 1 0
+name 1 base
+set 1 pos 0 0 1
+joint 2 1
+set 2 type 3
+geom 3 1
+set 3 size 0.1
+frame 4 1
+name 4 hf
+end
+child
+compiler degree 1
+body 1 0
+name 1 mid
+geom 2 1
+set 2 size 0.05
+site 3 1
+name 3 ms
+set 3 pos 0.1 0.2 0.3
+set 3 alt.type 4
+set 3 alt.euler 90 0 0
+end
+child
+body 1 0
+name 1 leaf
+set 1 pos 0 0 0.5
+geom 2 1
+set 2 size 0.05
+end
+attach 0 frame hf 1 body mid a_ ~
+attach 0 site a_ms 2 body leaf b_ ~
+done
+compiler degree 0
+body 1 0
+name 1 base
+set 1 pos 0 0 1
+joint 2 1
+set 2 type 3
+geom 3 1
+set 3 size 0.1
+frame 4 1
+name 4 hf
+body 5 1
+name 5 a_mid
+setframe 5 4
+geom 6 5
+set 6 size 0.05
+site 7 5
+name 7 a_ms
+set 7 pos 0.1 0.2 0.3
+set 7 quat 0.7071067811865476 0.7071067811865476 0 0
+frame 8 5
+set 8 pos 0.1 0.2 0.3
+set 8 quat 0.7071067811865476 0.7071067811865476 0 0
+body 9 5
+name 9 b_leaf
+set 9 pos 0 0 0.5
+setframe 9 8
+geom 10 9
+set 10 size 0.05
+end
+done"""
+
+
 # rewritings after which every compiled array must be bit-identical (the compile performs the same float operations or
 # operations that are exact: x * 1, x + 0)
 EXACT_STATIC = ("defaults", "attach", "frames:identity-child", "setconst")
@@ -1154,6 +1249,8 @@ def pairs_oracle(ctx, impl):
             bad = ("trajectory", "poses of kept bodies / sites deviate by %g (> %g) within 200 steps" % (dev, TOL_KIND.get(kind, TOL_TRAJ)))
         elif kind in EXACT_STATIC and static != "same":
             bad = ("static", "compiled arrays differ although the rewriting is exact: " + static[:200])
+        elif kind.startswith("attach") and any(re.fullmatch(r"n[A-Za-z0-9]+", t) and t != "names" for t in static.split(",")):
+            bad = ("elements", "the attached and the written-out model do not have the same numbers of elements: " + static[:200])
         elif kind.startswith("attach") and not (numdev <= TOL_ATTACH_STATIC):
             bad = ("compiled-values", "compiled positions / orientations / joint references / ranges / inertias deviate by %g (> %g)"
                    % (numdev, TOL_ATTACH_STATIC))
